@@ -199,8 +199,10 @@ def rest_values(res, tier):
             continue
         for endpoint in ('send/update', 'json_to_bin'):
             for code, flags in ((4, 0x80), (5, 0x40)):
-                for v in vals:
-                    out = rest.post_attr(endpoint, code, v)
+                for vi, v in enumerate(vals):
+                    # (json_to_bin also in its format=human layout, with message lengths of every residue modulo 8)
+                    out = rest.post_attr(endpoint, code, v, human=(endpoint == 'json_to_bin' and vi % 2 == 1),
+                                         nlri=['10.%d.0.0/16' % i for i in range(1 + (vi + code) % 8)])
                     want = '%02x%02x04%08x' % (flags, code, v)
                     res.stats.case(('rest-value', what, endpoint, code, v), sample=None)
                     res.stats.hit('rest_value_' + what)
